@@ -940,6 +940,40 @@ def _norm_block(lst, fn):
                 n += 1
                 i += len(new)
                 continue
+        # X = [E for t in IT if C]  /  return {E for ..}   ->   X = []; for t in IT: if C: X.append(E)
+        comp = None
+        if isinstance(st, ast.Assign) and len(st.targets) == 1 and isinstance(st.targets[0], ast.Name) and isinstance(st.value, (ast.ListComp, ast.SetComp)):
+            comp, accname = st.value, st.targets[0].id
+        elif isinstance(st, ast.Return) and isinstance(st.value, (ast.ListComp, ast.SetComp)):
+            comp, accname = st.value, "_acc"
+            while any(isinstance(x, ast.Name) and x.id == accname for x in ast.walk(fn)):
+                accname += "_"
+        if comp is not None and len(comp.generators) == 1 and not comp.generators[0].is_async \
+                and not any(isinstance(x, ast.Name) and x.id == accname for x in ast.walk(comp)):
+            gen = comp.generators[0]
+            is_set = isinstance(comp, ast.SetComp)
+            init = ast.Assign(targets=[ast.Name(id=accname, ctx=ast.Store())],
+                              value=(ast.Call(func=ast.Name(id="set", ctx=ast.Load()), args=[], keywords=[]) if is_set else ast.List(elts=[], ctx=ast.Load())))
+            add = ast.Expr(value=ast.Call(func=ast.Attribute(value=ast.Name(id=accname, ctx=ast.Load()), attr="add" if is_set else "append", ctx=ast.Load()),
+                                          args=[comp.elt], keywords=[]))
+            body = [add]
+            for cond in reversed(gen.ifs):
+                body = [ast.If(test=cond, body=body, orelse=[])]
+            tgt = copy.deepcopy(gen.target)
+            for x in ast.walk(tgt):
+                if hasattr(x, "ctx"):
+                    x.ctx = ast.Store()
+            loop = ast.For(target=tgt, iter=gen.iter, body=body, orelse=[])
+            new = [init, loop]
+            if isinstance(st, ast.Return):
+                new.append(ast.Return(value=ast.Name(id=accname, ctx=ast.Load())))
+            for x in new:
+                ast.copy_location(x, st)
+                ast.fix_missing_locations(x)
+            lst[i:i + 1] = new
+            n += 1
+            i += len(new)
+            continue
         # [f(x) for x in xs]  as a statement   ->   for x in xs: f(x)
         if isinstance(st, ast.Expr) and isinstance(st.value, ast.ListComp) and len(st.value.generators) == 1 \
                 and not st.value.generators[0].is_async:
